@@ -198,46 +198,215 @@ theorem slice_cases (slice : UInt32) (hs : slice.toNat < 4) : slice = 0 ∨ slic
   · exact Or.inr (Or.inr (Or.inl (UInt32.toNat_inj.mp h)))
   · exact Or.inr (Or.inr (Or.inr (UInt32.toNat_inj.mp h)))
 
-set_option maxHeartbeats 1000000 in
-/-- first pass: the uint32 computation of `m, s` in indexAlpha is |W| and start of RFC 9106, and |W| ≥ 1.
-    (in the first slice the code always passes `same = true` and starts at index 2) -/
-theorem areaSize_pass0 (seg n slice index : UInt32) (same : Bool) (hn : (n == 0) = true)
-    (hseg : 2 ≤ seg.toNat) (hseg4 : 4 * seg.toNat < 4294967296) (hs : slice.toNat < 4)
-    (hi : index.toNat < seg.toNat) (hfirst : slice = 0 → same = true ∧ 2 ≤ index.toNat) :
-    (areaSize seg n slice index same).1.toNat = refAreaRFC seg.toNat 0 slice.toNat index.toNat same ∧
-    (areaSize seg n slice index same).2.toNat = startRFC seg.toNat 0 slice.toNat ∧
-    1 ≤ (areaSize seg n slice index same).1.toNat := by
-  have hidx := beq_zero_32 index
-  have hsc := slice_cases slice hs
-  clear hs
-  rcases hsc with rfl | rfl | rfl | rfl
-  · obtain ⟨rfl, h2⟩ := hfirst rfl
-    clear hfirst
-    have h0 : ¬ index.toNat = 0 := by omega
-    simp only [areaSize, refAreaRFC, startRFC, syncPoints, hidx, hn]
-    simp [h0, UInt32.toNat_add, UInt32.toNat_mul, UInt32.toNat_sub]
-    omega
-  all_goals
-    clear hfirst
-    cases same <;> by_cases h0 : index.toNat = 0 <;>
-    simp only [areaSize, refAreaRFC, startRFC, syncPoints, hidx, hn] <;>
-    simp [h0, UInt32.toNat_add, UInt32.toNat_mul, UInt32.toNat_sub] <;> omega
+/-- indexAlpha's `m, s` transcribed over ℕ (same statements, same order) -/
+def areaNat (seg n slice index : Nat) (same : Bool) : Nat × Nat :=
+  let m := 3 * seg
+  let s := ((slice + 1) % 4) * seg
+  let m := if same then m + index else m
+  let ms : Nat × Nat :=
+    if n = 0 then
+      let m := slice * seg
+      let m := if slice = 0 ∨ same then m + index else m
+      (m, 0)
+    else (m, s)
+  let m := if index = 0 ∨ same then ms.1 - 1 else ms.1
+  (m, ms.2)
+
+theorem areaNat_eq_rfc (seg n slice index : Nat) (same : Bool)
+    (hseg : 2 ≤ seg) (hs : slice < 4) (hi : index < seg)
+    (hfirst : n = 0 → slice = 0 → same = true ∧ 2 ≤ index) :
+    areaNat seg n slice index same = (refAreaRFC seg n slice index same, startRFC seg n slice) ∧
+    1 ≤ (areaNat seg n slice index same).1 := by
+  have hsl : slice = 0 ∨ slice = 1 ∨ slice = 2 ∨ slice = 3 := by omega
+  by_cases hn : n = 0
+  · subst hn
+    rcases hsl with rfl | rfl | rfl | rfl
+    · obtain ⟨rfl, h2⟩ := hfirst rfl rfl
+      have : ¬ index = 0 := by omega
+      simp [areaNat, refAreaRFC, startRFC, this]; omega
+    all_goals
+      cases same <;> by_cases h0 : index = 0 <;> simp [areaNat, refAreaRFC, startRFC, h0] <;> omega
+  · rcases hsl with rfl | rfl | rfl | rfl <;>
+      cases same <;> by_cases h0 : index = 0 <;> simp [areaNat, refAreaRFC, startRFC, h0, hn] <;> omega
+
+theorem area_bridge_aux (seg slice index : UInt32) (hseg4 : 4 * seg.toNat < 4294967296) (hs : slice.toNat < 4)
+    (hi : index.toNat < seg.toNat) :
+    (3 * seg).toNat = 3 * seg.toNat ∧ (slice * seg).toNat = slice.toNat * seg.toNat ∧
+    (((slice + 1) % syncPoints) * seg).toNat = ((slice.toNat + 1) % 4) * seg.toNat ∧
+    slice.toNat * seg.toNat ≤ 3 * seg.toNat ∧ ((slice.toNat + 1) % 4) * seg.toNat ≤ 3 * seg.toNat := by
+  have b1 : slice.toNat * seg.toNat ≤ 3 * seg.toNat := Nat.mul_le_mul_right _ (by omega)
+  have b2 : ((slice.toNat + 1) % 4) * seg.toNat ≤ 3 * seg.toNat := Nat.mul_le_mul_right _ (by omega)
+  refine ⟨?_, ?_, ?_, b1, b2⟩
+  · rw [UInt32.toNat_mul]; show 3 * seg.toNat % 4294967296 = _; omega
+  · rw [UInt32.toNat_mul]; exact Nat.mod_eq_of_lt (by omega)
+  · have e1 : (slice + 1).toNat = slice.toNat + 1 := by
+      rw [UInt32.toNat_add]; show (slice.toNat + 1) % 4294967296 = _; omega
+    have e2 : ((slice + 1) % syncPoints).toNat = (slice.toNat + 1) % 4 := by
+      rw [UInt32.toNat_mod, e1]; rfl
+    rw [UInt32.toNat_mul, e2]; exact Nat.mod_eq_of_lt (by omega)
+
+theorem beq_true_iff_32 (x y : UInt32) : (x == y) = decide (x.toNat = y.toNat) := by
+  by_cases h : x.toNat = y.toNat
+  · have : x = y := UInt32.toNat_inj.mp h
+    simp [this]
+  · have : x ≠ y := fun e => h (by simp [e])
+    simp [h, this]
+
+theorem add_toNat_32 (x y : UInt32) (h : x.toNat + y.toNat < 4294967296) : (x + y).toNat = x.toNat + y.toNat := by
+  rw [UInt32.toNat_add]; exact Nat.mod_eq_of_lt h
+
+theorem sub_one_toNat_32 (x : UInt32) (h : 1 ≤ x.toNat) : (x - 1).toNat = x.toNat - 1 := by
+  rw [UInt32.toNat_sub]
+  show (4294967296 - 1 + x.toNat) % 4294967296 = _
+  have := x.toNat_lt
+  omega
+
 
 set_option maxHeartbeats 1000000 in
-/-- later passes: `m = 3·seg (+ index) (− 1)`, `s = ((slice+1) mod 4)·seg` -/
-theorem areaSize_later (seg n slice index : UInt32) (same : Bool) (hn : (n == 0) = false)
-    (hseg : 2 ≤ seg.toNat) (hseg4 : 4 * seg.toNat < 4294967296) (hs : slice.toNat < 4)
-    (hi : index.toNat < seg.toNat) :
-    (areaSize seg n slice index same).1.toNat = refAreaRFC seg.toNat 1 slice.toNat index.toNat same ∧
-    (areaSize seg n slice index same).2.toNat = startRFC seg.toNat 1 slice.toNat ∧
-    1 ≤ (areaSize seg n slice index same).1.toNat := by
-  have hidx := beq_zero_32 index
-  have hsc := slice_cases slice hs
-  clear hs
-  rcases hsc with rfl | rfl | rfl | rfl
+theorem areaSize_toNat (seg n slice index : UInt32) (same : Bool)
+    (hseg4 : 4 * seg.toNat < 4294967296) (hs : slice.toNat < 4) (hi : index.toNat < seg.toNat)
+    (hpos : 1 ≤ (areaNat seg.toNat n.toNat slice.toNat index.toNat same).1) :
+    ((areaSize seg n slice index same).1.toNat, (areaSize seg n slice index same).2.toNat) =
+      areaNat seg.toNat n.toNat slice.toNat index.toNat same := by
+  obtain ⟨e3, eP, eQ, bP, bQ⟩ := area_bridge_aux seg slice index hseg4 hs hi
+  have hn := beq_true_iff_32 n 0
+  have hsl := beq_true_iff_32 slice 0
+  have hix := beq_true_iff_32 index 0
+  have z : (0 : UInt32).toNat = 0 := rfl
+  unfold areaSize
+  unfold areaNat at hpos ⊢
+  simp only [hn, hsl, hix, z] at *
+  by_cases c1 : n.toNat = 0 <;> by_cases c2 : slice.toNat = 0 <;> by_cases c3 : index.toNat = 0 <;> cases same <;>
+    simp only [c1, c2, c3, decide_true, decide_false, Bool.or_true, Bool.or_false,
+      if_true, if_false, or_true, or_false, Bool.false_eq_true] at hpos ⊢
   all_goals
-    cases same <;> by_cases h0 : index.toNat = 0 <;>
-    simp only [areaSize, refAreaRFC, startRFC, syncPoints, hidx, hn] <;>
-    simp [h0, UInt32.toNat_add, UInt32.toNat_mul, UInt32.toNat_sub] <;> omega
+    (try simp only [c2, Nat.zero_mul] at eP bP)
+    have one : (1 : UInt32).toNat = 1 := rfl
+    have z' : (0 : UInt32).toNat = 0 := rfl
+    simp only [UInt32.toNat_add, UInt32.toNat_sub, eP, e3, eQ, z', one]
+    first | done | (refine Prod.ext ?_ ?_ <;> simp only [] <;> first | omega | (simp only [c2]) | trace_state)
+
+/-- **indexAlpha_eq_rfc (reference area)**: for every position the code can be at — slice < 4, index inside the
+    segment, segments ≥ 2, 4·segments < 2^32, and in the very first slice the own lane from index 2 on — the
+    `m, s` computed by indexAlpha in uint32 arithmetic are |W| and the start position of RFC 9106 §3.4, and |W| ≥ 1 -/
+theorem indexAlpha_area_rfc (seg n slice index : UInt32) (same : Bool)
+    (hseg : 2 ≤ seg.toNat) (hseg4 : 4 * seg.toNat < 4294967296) (hs : slice.toNat < 4)
+    (hi : index.toNat < seg.toNat)
+    (hfirst : n.toNat = 0 → slice.toNat = 0 → same = true ∧ 2 ≤ index.toNat) :
+    (areaSize seg n slice index same).1.toNat = refAreaRFC seg.toNat n.toNat slice.toNat index.toNat same ∧
+    (areaSize seg n slice index same).2.toNat = startRFC seg.toNat n.toNat slice.toNat ∧
+    1 ≤ (areaSize seg n slice index same).1.toNat := by
+  obtain ⟨h1, h2⟩ := areaNat_eq_rfc seg.toNat n.toNat slice.toNat index.toNat same hseg hs hi hfirst
+  have h3 := areaSize_toNat seg n slice index same hseg4 hs hi h2
+  rw [h1] at h3
+  have e1 := congrArg Prod.fst h3
+  have e2 := congrArg Prod.snd h3
+  simp only [] at e1 e2
+  refine ⟨e1, e2, ?_⟩
+  rw [e1]
+  have := h2
+  rw [h1] at this
+  exact this
+
+/-- **ref_already_written, first pass**: with |W| = refAreaRFC (start 0) and any offset `k < |W|` into the area
+    (k = |W| − 1 − y in phi), the referenced position `k` of the reference lane lies strictly before the blocks
+    not yet written: before `cur − 1` in the own lane (the previous block is excluded too), before the current
+    slice in another lane (and before its last finished block when index = 0). -/
+theorem ref_written_pass0 (seg slice index k : Nat) (same : Bool)
+    (hs : slice < 4) (hi : index < seg) (hfirst : slice = 0 → same = true ∧ 2 ≤ index)
+    (hk : k < refAreaRFC seg 0 slice index same) :
+    (startRFC seg 0 slice + k) % (4 * seg) = k ∧
+    (same = true → k + 1 < slice * seg + index) ∧
+    (same = false → k < slice * seg ∧ (index = 0 → k + 1 < slice * seg)) := by
+  have hst : startRFC seg 0 slice = 0 := by simp [startRFC]
+  have hb : slice * seg ≤ 3 * seg := Nat.mul_le_mul_right _ (by omega)
+  have hkb : k < 4 * seg ∧ (same = true → k + 1 < slice * seg + index) ∧
+      (same = false → k < slice * seg ∧ (index = 0 → k + 1 < slice * seg)) := by
+    unfold refAreaRFC at hk
+    simp only [if_true] at hk
+    by_cases h0 : slice = 0
+    · obtain ⟨rfl, h2⟩ := hfirst h0
+      subst h0
+      simp only [if_true] at hk
+      exact ⟨by omega, fun _ => by omega, fun h => Bool.noConfusion h⟩
+    · simp only [h0, if_false] at hk
+      cases same
+      · simp only [Bool.false_eq_true, if_false] at hk
+        by_cases hi0 : index = 0
+        · simp only [hi0, if_true] at hk
+          exact ⟨by omega, fun h => Bool.noConfusion h, fun _ => ⟨by omega, fun _ => by omega⟩⟩
+        · simp only [hi0, if_false] at hk
+          exact ⟨by omega, fun h => Bool.noConfusion h, fun _ => ⟨by omega, fun h => absurd h hi0⟩⟩
+      · simp only [if_true] at hk
+        exact ⟨by omega, fun _ => by omega, fun h => Bool.noConfusion h⟩
+  refine ⟨?_, hkb.2.1, hkb.2.2⟩
+  rw [hst, Nat.zero_add, Nat.mod_eq_of_lt hkb.1]
+
+theorem mod4seg (seg x : Nat) (hx : x < 8 * seg) :
+    (x % (4 * seg) = x ∧ x < 4 * seg) ∨ (x % (4 * seg) = x - 4 * seg ∧ 4 * seg ≤ x) := by
+  by_cases h : x < 4 * seg
+  · exact Or.inl ⟨Nat.mod_eq_of_lt h, h⟩
+  · refine Or.inr ⟨?_, by omega⟩
+    rw [Nat.mod_eq_sub_mod (by omega), Nat.mod_eq_of_lt (by omega)]
+
+/-- **ref_already_written, later passes**: |W| = refAreaRFC, start s = ((slice+1) mod 4)·seg, lane length
+    q = 4·seg, offset `k < |W|`: the referenced position `rel = (s + k) mod q` is never in the part of the
+    current slice that is being rewritten — in the own lane not at or after `cur − 1` (cur = slice·seg + index)
+    inside the slice and never the block just before `cur` (also across the lane wrap); in another lane not
+    in the current slice at all (that lane's goroutine is writing it), and for index = 0 not the block just
+    before the slice either. -/
+theorem ref_written_later (seg slice index k : Nat) (same : Bool)
+    (hseg : 2 ≤ seg) (hs : slice < 4) (hi : index < seg)
+    (hk : k < refAreaRFC seg 1 slice index same) :
+    (startRFC seg 1 slice + k) % (4 * seg) < 4 * seg ∧
+    (same = true →
+        ¬ (slice * seg + index ≤ (startRFC seg 1 slice + k) % (4 * seg) + 1 ∧
+           (startRFC seg 1 slice + k) % (4 * seg) < slice * seg + seg) ∧
+        ((startRFC seg 1 slice + k) % (4 * seg) + 1) % (4 * seg) ≠ slice * seg + index) ∧
+    (same = false →
+        ¬ (slice * seg ≤ (startRFC seg 1 slice + k) % (4 * seg) ∧
+           (startRFC seg 1 slice + k) % (4 * seg) < slice * seg + seg) ∧
+        (index = 0 → ((startRFC seg 1 slice + k) % (4 * seg) + 1) % (4 * seg) ≠ slice * seg)) := by
+  have hst : startRFC seg 1 slice = ((slice + 1) % 4) * seg := by simp [startRFC]
+  rw [hst]
+  generalize hs0 : ((slice + 1) % 4) * seg = s0
+  generalize hc0 : slice * seg = c0
+  have hcase : (s0 = seg ∧ c0 = 0) ∨ (s0 = 2 * seg ∧ c0 = seg) ∨ (s0 = 3 * seg ∧ c0 = 2 * seg) ∨ (s0 = 0 ∧ c0 = 3 * seg) := by
+    have hsl : slice = 0 ∨ slice = 1 ∨ slice = 2 ∨ slice = 3 := by omega
+    rcases hsl with rfl | rfl | rfl | rfl <;> simp at hs0 hc0 <;> omega
+  unfold refAreaRFC at hk
+  simp only [Nat.one_ne_zero, if_false] at hk
+  have hlt : (s0 + k) % (4 * seg) < 4 * seg := Nat.mod_lt _ (by omega)
+  cases same
+  · simp only [Bool.false_eq_true, if_false] at hk
+    have hk3 : k < 3 * seg ∧ (index = 0 → k + 1 < 3 * seg) := by
+      by_cases hi0 : index = 0
+      · simp only [hi0, if_true] at hk; exact ⟨by omega, fun _ => by omega⟩
+      · simp only [hi0, if_false] at hk; exact ⟨by omega, fun h => absurd h hi0⟩
+    refine ⟨hlt, fun h => Bool.noConfusion h, fun _ => ?_⟩
+    rcases mod4seg seg (s0 + k) (by omega) with ⟨e, h1⟩ | ⟨e, h1⟩ <;> rw [e] <;>
+      rcases mod4seg seg (s0 + k + 1) (by omega) with ⟨e', h2⟩ | ⟨e', h2⟩ <;>
+      (constructor
+       · omega
+       · intro h0
+         have := hk3.2 h0
+         first
+           | (rw [e']; omega)
+           | (have e2 : s0 + k - 4 * seg + 1 = s0 + k + 1 - 4 * seg := by omega
+              rw [e2, Nat.mod_eq_of_lt (by omega)]; omega)
+           | (rw [Nat.mod_eq_of_lt (by omega)]; omega)
+           | omega)
+  · simp only [if_true] at hk
+    refine ⟨hlt, fun _ => ?_, fun h => Bool.noConfusion h⟩
+    rcases mod4seg seg (s0 + k) (by omega) with ⟨e, h1⟩ | ⟨e, h1⟩ <;> rw [e] <;>
+      rcases mod4seg seg (s0 + k + 1) (by omega) with ⟨e', h2⟩ | ⟨e', h2⟩ <;>
+      (constructor
+       · omega
+       · first
+           | (rw [e']; omega)
+           | (have e2 : s0 + k - 4 * seg + 1 = s0 + k + 1 - 4 * seg := by omega
+              rw [e2, Nat.mod_eq_of_lt (by omega)]; omega)
+           | (rw [Nat.mod_eq_of_lt (by omega)]; omega)
+           | omega)
 
 end XC.C15
